@@ -153,6 +153,14 @@ def orContour {α} [Add α] [Sub α] [Mul α] [Div α] [Neg α] [LT α] [Decidab
 
 def searchConstF : SearchConst Float := { d0 := 0.2, s0 := 0.1, half := 0.5, maxIter := 100 }
 
+/-- `max_factor = 1.1` of `OrContour._compute` (points with a coordinate at or beyond 1.1 times the sample
+maximum are dropped) -/
+def orMaxFactorF : Float := 1.1
+
+/-- the OR contour as the driver runs it: constants of the code pinned -/
+def orContourF (sample : List (Float × Float)) (alpha err maxDist : Float) (dirs : List (Float × Float)) :=
+  orContour searchConstF Float.ofNat sample alpha err maxDist orMaxFactorF dirs
+
 /-- argument of `cos`/`sin` for a theta in degrees: `theta / 180 * np.pi`. -/
 def thetaArgF (pi theta : Float) : Float := theta / 180.0 * pi
 
